@@ -185,7 +185,11 @@ class World:
             return
         if name == 'Z':
             u = self.prog['unrelated']
-            self.classes[name] = type('Z', (Module,), {'z': Parameter('unrelated', self.constant(u['shares']), max=u['max'], default=u['default'])})
+            def zcmd(self, a=0, b=1):
+                """command of the unrelated class, declared with the same argument datatype object"""
+                return None
+            self.classes[name] = type('Z', (Module,), {'z': Parameter('unrelated', self.constant(u['shares']), max=u['max'], default=u['default']),
+                                                       'zcmd': Command(self.constant_arg())(zcmd)})
             return
         c = next(c for c in self.prog['classes'] if c['name'] == name)
         if not c['bases']:
@@ -201,7 +205,7 @@ class World:
             def cmd2(self, a, b=1):
                 """root command with a struct argument"""
                 return None
-            attrs['cmd2'] = Command(StructOf(a=IntRange(0, 9), b=IntRange(0, 9)))(cmd2)
+            attrs['cmd2'] = Command(self.constant_arg())(cmd2)
             attrs['chan'] = Property('a module property', IntRange(0, 100), default=0)
             base = {'Module': Module, 'Readable': Readable}[c['base']]
             self.classes[name] = type(name, (base,), attrs)
@@ -227,6 +231,13 @@ class World:
         for p in c.get('new', []):
             attrs[p['name']] = Parameter(f"new {p['name']}", specs.build(p['T']), default=p['default'], readonly=False)
         self.classes[name] = type(name, tuple(self.classes[b] for b in c['bases']), attrs)
+
+    def constant_arg(self):
+        """the argument datatype object (a module level constant) the commands are declared with"""
+        from frappy.core import StructOf, IntRange
+        if '$arg' not in self.constants:
+            self.constants['$arg'] = StructOf(a=IntRange(0, 9), b=IntRange(0, 9))
+        return self.constants['$arg']
 
     def constant(self, pname):
         """the datatype object (one per world, like a module level constant) the root parameter pname is declared with"""
